@@ -1415,6 +1415,12 @@ def gen_growth(g, phones, sil, mode, nadds):
         recent = known[-40:] + known[:10]
         bases = [b for b in recent if basestr(b) is None and b"(" not in b and not b.startswith(b"<") and not b.startswith(b"[")] or known[:1]
         kind = r.weighted([("new", 70), ("alt", 18), ("dup", 4), ("nobase", 3), ("alt-of-alt", 3), ("empty", 1), ("badphone", 1)])
+        # the addition that makes the word table grow (and move) is, most of the time, a numbered alternate of an
+        # existing base word or a rejected addition: what the growth does to links INTO the table (base -> alt) and
+        # to a half-done addition shows only then (seeded change C16-dm1 was caught by luck of the draw before)
+        if any(len(o.words) == cap + j * INC for j in range(0, 3)):
+            kind = r.weighted([("alt", 60), ("alt-of-alt", 10), ("dup", 10), ("nobase", 5), ("new", 15)])
+            g.hit("growth_add", f"kind-at-exact-growth-point:{kind}")
         if kind == "new":
             w = g.fresh()
         elif kind == "alt":
